@@ -7,9 +7,9 @@ from spec import unit_atoms as UA
 
 
 class Units:
-    def __init__(self, check, types=('double',), shapes=True):
+    def __init__(self, check, types=('double',), shapes=True, model_type=False):
         wd = os.path.join(check.work, 'ast')
-        p = astload.dump(tu.units_tu(tuple(types), shapes=shapes), wd, 'units')
+        p = astload.dump(tu.units_tu(tuple(types), shapes=shapes, model_type=model_type), wd, 'units')
         self.ast = astload.Ast().load(p)
         os.remove(p)
         self.low = lower.Lowerer(self.ast)
